@@ -33,6 +33,9 @@ def main():
     ap.add_argument("--streams", type=int, default=None, help="seed: give every event handler its own random stream")
     ap.add_argument("--multi", type=int, default=None, help="number of cores: run under the multi-process mediator")
     ap.add_argument("--schedule", default=None, help="JSON: {policy, seed, delays: {hid: [t, o]}} for the multi-process run")
+    ap.add_argument("--roundtrip", action="store_true",
+                    help="after the recorded legs: dill round trip of the mediator (what a dump persists) and comparison of the "
+                         "fingerprints (harness/fingerprint.py) of the live and the reloaded mediator")
     ap.add_argument("--preset-counters", type=int, default=None,
                     help="K: every event handler's lazy-deletion counter of the heap scheduler starts 1..K below 2^32 (the "
                          "state after that many trashes), so the counter wrap-around happens during the recorded legs")
@@ -122,8 +125,11 @@ def main():
         tb_last = e.__traceback__
         while tb_last is not None and tb_last.tb_next is not None:
             tb_last = tb_last.tb_next
+        last_line = (traceback.extract_tb(e.__traceback__)[-1].line or "") if e.__traceback__ is not None else ""
+        # ... unless the failing statement is a wrapper's pass-through call `orig(self, *a, **k)`: the wrappers forward exactly
+        # what the real caller passed, so a TypeError there (wrong number of arguments) is the real caller's
         if tb_last is not None and os.sep + "harness" + os.sep in tb_last.tb_frame.f_code.co_filename \
-                and not isinstance(e, (SystemExit, KeyboardInterrupt)):
+                and "orig(" not in last_line and not isinstance(e, (SystemExit, KeyboardInterrupt)):
             status = dict(ok=False, exc="harness", msg="%s raised in %s:%d: %s" % (
                 type(e).__name__, os.path.basename(tb_last.tb_frame.f_code.co_filename), tb_last.tb_lineno, str(e)[:300]),
                 tb=traceback.format_exc()[-3000:])
@@ -131,6 +137,19 @@ def main():
             rec.emit("end", reason="exception", exc=type(e).__name__, msg=str(e)[:300], children=live_children())
         except Exception:
             pass
+    if a.roundtrip and status.get("ok") and rec.mediator is not None:
+        try:
+            import dill
+            from harness import fingerprint as fpm
+            live = fpm.fingerprint(rec.mediator)
+            again = fpm.fingerprint(rec.mediator)
+            loaded = fpm.fingerprint(dill.loads(dill.dumps(rec.mediator)))
+            status["roundtrip"] = dict(stable=fpm.first_difference(live, again) is None,
+                                       difference=fpm.first_difference(live, loaded),
+                                       sizes=dict(surplus=sum(len(c["surplus"]) for c in live["cells"]),
+                                                  instates=sum(len(t[1]) for t in live["taggers"]), scheduler=len(live["scheduler"])))
+        except Exception as e:      # noqa
+            status["roundtrip"] = dict(error="%s: %s" % (type(e).__name__, str(e)[:300]))
     rec.close()
     json.dump(status, sys.stdout)
 
